@@ -36,7 +36,7 @@ def shards(tier, seed):
 
 def floors(tier):
     f = {"compiles:noisy": 1500, "class:A": 150, "class:B": 60, "class:C": 40, "switch:zero_strength": 60, "switch:empty_map": 60,
-         "switch:off": 60, "attach:direct": 150, "attach:map": 150, "fidelity:checked": 500, "loss:events": 200}
+         "switch:off": 60, "attach:direct": 150, "attach:map": 150, "fidelity:checked": 500, "loss:events": 200, "attach:wrapper_level_noise_object": 40}
     for model in ("depol", "pauli", "loss"):
         for place in ("before", "after"):
             for backend in ("dm", "mixture"):
@@ -142,7 +142,12 @@ def attach_direct(rng, prog, oplist, zero=False):
         if op.kind in ONEQ:
             op.noise = rand_noise(rng)
         elif op.kind == "W":
-            op.noise = [rand_noise(rng) for _ in op.gates]
+            if rng.random() < 0.3:
+                # one noise object for the whole wrapper: it acts once, after (or before) all the wrapped gates
+                n1 = rand_noise(rng, allow_none=False)
+                op.noise = ("single", n1)
+            else:
+                op.noise = [rand_noise(rng) for _ in op.gates]
         else:
             a = rand_noise(rng, allow_none=False)
             b = rand_noise(rng, allow_none=False) if rng.random() < 0.6 else a
@@ -154,6 +159,8 @@ def attach_direct(rng, prog, oplist, zero=False):
 def zero_strength(N):
     if N is None:
         return None
+    if isinstance(N, tuple) and N[0] == "single":
+        return ("single", zero_strength(N[1]))
     if isinstance(N, list):
         return [zero_strength(x) for x in N]
     kind, par, after = N
@@ -202,7 +209,10 @@ def build_circuit(prog, oplist, with_noise_objects):
         noise = None
         if with_noise_objects and getattr(op, "noise", None) is not None:
             N = op.noise
-            noise = [mk_noise(x) for x in N] if isinstance(N, list) else mk_noise(N)
+            if isinstance(N, tuple) and N[0] == "single":
+                noise = mk_noise(N[1])
+            else:
+                noise = [mk_noise(x) for x in N] if isinstance(N, list) else mk_noise(N)
         op.obj = make_gq_op(op, noise=noise)
         circ.add(op.obj)
         prog.spec_add(op)
@@ -225,6 +235,13 @@ def reference_run(prog, run, oplist_noise, ctx, stop_at_uncertain=True):
             k = sum(1 for (s2, g2, e2) in seq[:step] if s2 is sp)       # position in executed order
             idx = len(sp.gates) - 1 - k                                   # listed position of this gate
             n1 = N[idx] if isinstance(N, list) else None
+            if isinstance(N, tuple) and N[0] == "single":
+                # wrapper-level noise: carried by an extra Identity before the first executed gate or after the last one
+                if g == "I*":
+                    apply_noise(ref, N[1], qs[0], ctx)
+                else:
+                    ref.apply(_Sub(g, sp.q))
+                continue
             if n1 is not None and not n1[2]:
                 apply_noise(ref, n1, qs[0], ctx)
             ref.apply(_Sub(g, sp.q))
@@ -340,7 +357,11 @@ def check_case(pseed, ctx, m, mon):
             ctx.violation("assign_noise_changed_the_circuit", {"pseed": pseed}, {"problem": _exc(e), "program": prog.text()}, key="assign_changed")
             return
     expect_noiseless = switch in ("zero_strength", "empty_map", "off")
-    nontrivial = any(is_nontrivial(x) for op in oplist for x in (op.noise if isinstance(getattr(op, "noise", None), list) else [getattr(op, "noise", None)]))
+    def flat(N):
+        if isinstance(N, tuple) and N and N[0] == "single":
+            return [N[1]]
+        return N if isinstance(N, list) else [N]
+    nontrivial = any(is_nontrivial(x) for op in oplist for x in flat(getattr(op, "noise", None)))
     desc = [o.text() + ("" if getattr(o, "noise", None) is None else "  ~" + repr(o.noise)) for o in oplist]
     case = {"pseed": pseed, "class": klass, "attach": how, "switch": switch, "setting": det, "program": desc, "registers": [prog.n_e, prog.n_p, prog.n_c]}
     ctx.count("class:" + klass)
@@ -355,7 +376,9 @@ def check_case(pseed, ctx, m, mon):
         ctx.count("compiles:noisy")
         ctx.case((tuple(desc), backend, switch, det), nontrivial and switch == "noisy", {"program": desc, "backend": backend, "switch": switch} if ctx.evaluations % 250 == 0 else None)
         for op in oplist:
-            Ns = op.noise if isinstance(getattr(op, "noise", None), list) else [getattr(op, "noise", None)]
+            Ns = flat(getattr(op, "noise", None))
+            if isinstance(getattr(op, "noise", None), tuple) and op.noise[0] == "single":
+                ctx.count("attach:wrapper_level_noise_object")
             for N in Ns:
                 if is_nontrivial(N):
                     ctx.count(f"cell:{N[0]}:{'after' if N[2] else 'before'}:{bname}")
@@ -369,7 +392,8 @@ def check_case(pseed, ctx, m, mon):
         saved = [getattr(o, "noise", None) for o in oplist]
         if not spec_noise_on:
             for o in oplist:
-                o.noise = None
+                # a wrapper-level noise object still makes unwrap() emit its (now noiseless) carrier Identity
+                o.noise = ("single", ("pauli", "I", o.noise[1][2])) if (isinstance(o.noise, tuple) and o.noise and o.noise[0] == "single") else None
         try:
             # the density-matrix backend post-selects on the outcome it takes (judged through the whole circuit); the
             # mixture measures every branch separately, which is only a well-defined channel when the outcome is certain
